@@ -177,12 +177,17 @@ class Check(BaseCheck):
                 s = fixed[j]
             else:
                 k = rnd.random()
-                if k < 0.5:
+                if k < 0.4:
                     s = ''.join(rnd.choice(alphabet) for _ in range(rnd.randint(0, 8)))
-                else:   # a well-formed label with one defect injected
+                elif k < 0.75:   # a well-formed label with one defect injected
                     s, _ = self._rand_label(rnd)
                     pos = rnd.randrange(len(s) + 1)
-                    s = s[:pos] + rnd.choice(['$', ' ', '\n', '-', '.', ':', 'é', '١', '_', '$$']) + s[pos:]
+                    s = s[:pos] + rnd.choice(['$', ' ', '\n', '-', '.', ':', 'é', '١', '_', '$$'] + list(string.punctuation)) + s[pos:]
+                else:            # a well-formed label inside what other notations put around one: still not a label
+                    s, _ = self._rand_label(rnd)
+                    t, _ = self._rand_label(rnd)
+                    s = rnd.choice(['Sheet1!%s', 'S!%s', 'sheet_2.x!%s', "'Sheet 1'!%s", '[Book1]Sheet1!%s', '!%s', '=%s', '+%s', '-%s', '@%s', '#%s', '(%s)', '"%s"', "'%s'", '%s!', '%s#', '%s%%',
+                                    '%s:' + t, '%s,' + t, '%s ' + t, '%s;' + t, '%s' + t, '%s.' + t, 'R%sC1', '%s()', 'x!%s', '_%s', '%s_', 'a.b!%s', 'A1!%s', '%s!' + t, '{%s}', '&%s', '%s&']) % s
             if m.LABEL_SHAPED.match(s) and s.isascii():
                 rec.count('generated_string_is_label_shaped_skipped')
                 continue
